@@ -232,10 +232,10 @@ PROPS["C08"] = dict(
 PROPS["C19"] = dict(
     level="other",
     technique="Lean 4 theorems fromJson (toJson x) = some x on a model of the serde data model as configured in /repo (shapes determined from real serde_json output) for every public type, amount helpers via C15 and address via C12 theorems; JSON text of the model compared with serde_json's on the same values, and deserialisers on reordered / malformed documents",
-    level_text="PARTIAL by nature: serde_derive's expansion and serde_json's printer/parser are trusted, not modelled. Proved on the model: C19_roundtrip_<T> for 26 types from Key/Hash/VarInt up to Transaction and Block (under explicit wf predicates), C19_amount_pico (every u64/i64), C19_amount_xmr (exact decimal string of C15, round-trips iff magnitude <= 2^63-1; C19_amount_xmr_refused above), option and sequence variants, C19_address_json / C19_invalid_address_refused (via C12). Decided by conformance: the model's compact JSON text equals serde_json::to_string on the same values (all RingCT types, both versions), read-back equality, and deserialisers agree on reordered, escaped and malformed documents. Session 4: C19_roundtrip_wire* / _decoded* (every value decoded from the wire round-trips through JSON: the wf predicates are consequences of decoding), amount theorems against Spec.Decimal, a generated serde shape table Gen/JsonShapes.lean with C19_shape_* theorems, models of PublicKey / SubField / ExtraField, from_reader / from_value / from_slice entry points.",
+    level_text="PARTIAL by nature: serde_derive's expansion and serde_json's printer/parser are trusted, not modelled. Proved on the model: C19_roundtrip_<T> for 26 types from Key/Hash/VarInt up to Transaction and Block (under explicit wf predicates), C19_amount_pico (every u64/i64), C19_amount_xmr (exact decimal string of C15, round-trips iff magnitude <= 2^63-1; C19_amount_xmr_refused above), option and sequence variants, C19_address_json / C19_invalid_address_refused (via C12). Decided by conformance: the model's compact JSON text equals serde_json::to_string on the same values (all RingCT types, both versions), read-back equality, and deserialisers agree on reordered, escaped and malformed documents. Session 4: C19_roundtrip_wire* / _decoded* (every value decoded from the wire round-trips through JSON: the wf predicates are consequences of decoding), amount theorems against Spec.Decimal, a generated serde shape table Gen/JsonShapes.lean with C19_shape_* theorems, models of PublicKey / SubField / ExtraField, from_reader / from_value / from_slice entry points. After the review of session 4: the table also carries the declared TYPE of every field in a spelling-independent form (C19_shape_types pins it; C19_shape_types_boundaries records, by evaluation of the model, which side of u32 / u8 / Option / [Key;64] / Hash8 the model takes; which reader belongs to which type token remains a hand-written correspondence checked on behaviour only) and the #[cfg] conditions of enclosing modules and of the hand-written Address impls (C19_shape_feature_gate: derives, attributes, deriving items, enclosing modules, mod serde_impl and amount::serde all under feature=\"serde\" alone); C19_shape_newtypes ties the five newtype / fixed_hash items to their content serialisers; C19_variant_names_distinct (Nodup of the SubField and RctType names); C19_roundtrip_parsed_ExtraField no longer repeats its first conjunct (RawExtraField::try_parse is the same fields by definition). Two statements that hold by definition of the model (amount_vec_reads_like_single, amount_struct_missing_field) are kept as remarks without the C19_ prefix and are not counted.",
     level_note="Trusted: serde_derive, serde_json, serde-big-array; Lean kernel for the model-level theorems; the feature gate is exercised because the harness always builds monero with `serde`. What the model cannot exhibit: a divergence between serde_json's printer and parser on trees the tests do not reach.",
     design_ref="DESIGN.md §6 C19",
-    rule="values from the shared generators (transactions/blocks of all types), amounts on the u64/i64 boundary sets, addresses (3 networks x 3 types), Index, Hash; malformed / reordered JSON documents.",
+    rule="values from the shared generators (transactions/blocks of all types), amounts on the u64/i64 boundary sets, addresses (3 networks x 3 types), Index, Hash; malformed / reordered JSON documents. NEIGHBOURS on one thread (c19_seq: several operations in one call, and consecutive single operations): integrated addresses of one wallet and network with different payment ids built from their parts (c19_addr_parts, spec side Spec.Address.text), standard / sub-address / other network / other view key of the same keys, transactions sharing the prefix (and the base), blocks sharing the header, extras, indexes, hashes, amounts and documents sharing a prefix of their fields. as_pico above 2^53 (plain, opt, slice -> vec, RingCT fee): JSON integers in the text and in to_value, read back through from_str / from_reader / from_value / from_slice, the value text of one form read by the others, floats and strings denoting integers refused. as_xmr strings without a decimal point (whole-monero amounts around the limit), leading '+', more than 50 characters of zero padding: plain, opt and vec must agree (and with Spec.Decimal.specParse on the spec side).",
     assumptions=["serde_derive / serde_json conventions as observed on real output"],
     gen_items=[],
 )
